@@ -30,9 +30,7 @@ where
 {
     // If either path is empty, short-circuit by returning the other
     if path1.is_empty() {
-        return path2.iter()
-            .map(|path| POut::from_path(path))
-            .collect();
+        return vec![];
     } else if path2.is_empty() {
         return path1.iter()
             .map(|path| POut::from_path(path))
